@@ -26,8 +26,8 @@ def extract(g, X):
 
     def u_rounds():
         b = X.fn_body(fp, "compute_u_rev_3_4")
-        m = re.search(r"for\s+\w+\s+in\s+(\d+)u8\s*\.\.=\s*(\d+)", b)
-        return m.group(1), m.group(2)
+        m = re.search(r"for\s+\w+\s+in\s+(" + X.BYTE + r")\s*\.\.=\s*(" + X.BYTE + r")", b)
+        return str(X.int_value(m.group(1))), str(X.int_value(m.group(2)))
     g.attempt([("crypt_u_round_first", "N"), ("crypt_u_round_last", "N")], "crypt.rs:compute_u_rev_3_4", u_rounds)
 
     def user_kd():
@@ -51,8 +51,21 @@ def extract(g, X):
               "crypt.rs:key_derivation_owner_password_rc4", owner_kd)
 
     def owner_rounds():
-        m = re.search(r"let\s+\w+\s*=\s*if\s+\w+\s*==\s*(\d+)\s*\{\s*(\d+)u8\s*\}\s*else\s*\{\s*(\d+)u8\s*\}", fp)
-        return m.group(1), m.group(2), m.group(3)
+        # `let rounds = if level == 2 { 1 } else { 20 };` (either polarity, or a match): evaluated for level = 2 .. 6
+        lvar = re.search(r"let\s+(\w+)\s*=\s*\w+\.r\s*;", fp).group(1)
+        init = None
+        for m in re.finditer(r"let\s+(\w+)\s*(?::\s*\w+)?\s*=\s*(?=if\b|match\b)", fp):
+            cand = X.let_expr(fp[m.start():], m.group(1)) or ""
+            head = cand.split("{")[0]
+            if re.search(r"(?<![\w.])" + lvar + r"(?!\w)", head) and re.fullmatch(r"(?:if|match)\s+[^{]*\{\s*[^{}]*\}\s*(?:else\s*\{[^{}]*\})?", cand.strip()) and re.search(X.BYTE, cand):
+                init = cand
+                break
+        t = {k: o.value for k, o in X.tabulate(init, lvar, src, scopes=[fp], domain=range(2, 7)).items()}
+        special = [k for k in t if list(t.values()).count(t[k]) == 1]
+        if len(special) != 1 or len(set(t.values())) != 2 or not all(isinstance(v, int) for v in t.values()):
+            raise ValueError("owner rounds: %r" % (t,))
+        other = [v for k, v in t.items() if k != special[0]][0]
+        return str(special[0]), str(t[special[0]]), str(other)
     g.attempt([("crypt_owner_rev2", "N"), ("crypt_owner_rounds2", "N"), ("crypt_owner_rounds", "N")], "crypt.rs:from_password owner rounds", owner_rounds)
 
     def dispatch():
@@ -61,7 +74,21 @@ def extract(g, X):
         v4 = re.search(r"(\d+)\s*\.\.=\s*(\d+)\s*=>\s*\{\s*let\s+\(\w+,\s*\w+\)\s*=\s*crypt_filter\(\w+,\s*\w+\.default_crypt_filter\.as_ref\(\)\)\?;"
                        r"\s*let\s+\(\w+,\s*\w+\)\s*=\s*crypt_filter\(\w+,\s*\w+\.string_crypt_filter\.as_ref\(\)\)\?;", fp)
         v5 = re.search(r"CryptMethod::AESV3\s+if\s+\w+\.v\s*==\s*(\d+)", fp)
-        lv = re.search(r"!\((\d+)\s*\.\.=\s*(\d+)\)\.contains\(&\w+\)", fp)
+        # the admissible revisions: the rejecting condition on `let level = dict.r;` is evaluated for 0..31
+        lvar = re.search(r"let\s+(\w+)\s*=\s*\w+\.r\s*;", fp).group(1)
+        rej = []
+        for c, blk, _ in X.if_conditions(fp):
+            if re.search(r"(?<![\w.])" + lvar + r"(?!\w)", c) and re.match(r"\s*(err!|bail!|return\s+Err)", blk):
+                try:
+                    rej.append(X.guard_values(c, lvar, src, scopes=[fp], domain=range(32)))
+                except ValueError:
+                    pass                   # a condition that passes the revision on to something else (a password check)
+        if len(rej) != 1:
+            raise ValueError("revision check: %d conditions" % len(rej))
+        ok = sorted(set(range(32)) - rej[0])
+        if not ok or ok != list(range(ok[0], ok[-1] + 1)):
+            raise ValueError("admissible revisions are not a range")
+        lv = re.match(r"(\d+) (\d+)", "%d %d" % (ok[0], ok[-1]))
         rc = re.search(r"if\s+\w+\s*<=\s*(\d+)\s*\{\s*let\s+\w+\s*=\s*\w+\s+as\s+usize\s*/\s*8", fp)
         ul = re.search(r"let\s+(\w+)\s*=\s*\w+\.u\.as_bytes\(\);\s*if\s+\1\.len\(\)\s*!=\s*(\d+)", fp)
         ol = re.search(r"let\s+(\w+)\s*=\s*\w+\.o\.as_bytes\(\);\s*if\s+\1\.len\(\)\s*!=\s*(\d+)", fp)
@@ -87,10 +114,11 @@ def extract(g, X):
 
     def slices():
         out = []
-        ms = re.findall(r"let\s+\w+\s*=\s*&\w+\[(\d+)\.\.(\d+)\];", fp)
+        # `&u[0..32]` and `&u[..32]` are the same slice
+        ms = re.findall(r"let\s+\w+\s*=\s*&\w+\[\s*(\d*)\s*\.\.\s*(\d+)\s*\]\s*;", fp)
         if len(ms) != 6:
             raise ValueError("expected 6 slices of U and O")
-        out = [(int(a), int(b)) for a, b in ms]
+        out = [(int(a or 0), int(b)) for a, b in ms]
         return X.ctuples(out)
     g.attempt([("crypt_r56_slices", "list (N * N)")], "crypt.rs:from_password R5/R6 slices", slices)
 
@@ -99,7 +127,15 @@ def extract(g, X):
         w = re.search(r"while\s+(\w+)\s*<\s*(\d+)\s*\|\|\s*\1\s*<\s*\w+\[\w+\s*-\s*1\]\s*as\s+usize\s*\+\s*(\d+)", b)
         rep = re.search(r"for\s+\w+\s+in\s+1\s*\.\.\s*(\d+)", b)
         bs = re.search(r"let\s+(\w+)\s*:\s*usize\s*=\s*\w+\[\.\.(\d+)\]\.iter\(\)\.map\(\|\w+\|\s*\*\w+\s+as\s+usize\)\.sum\(\);\s*\w+\s*=\s*\1\s*%\s*(\d+)\s*\*\s*(\d+)\s*\+\s*(\d+)", b, flags=re.S)
-        arms = re.findall(r"(\d+)\s*=>\s*\{\s*sha(\d+)\.update", b)
+        # block size -> hash: integer patterns are disjoint, the order of the arms is immaterial
+        arms = []
+        bs_var = re.search(r"\bmatch\s+(\w+)\s*\{\s*\d+\s*=>", b).group(1)
+        for arm in X.match_arms(b, bs_var):
+            hm = re.match(r"sha(\d+)\.update", arm.expr)
+            for pt in arm.pats:
+                if hm and arm.guard is None and re.fullmatch(r"\d+", pt):
+                    arms.append((pt, hm.group(1)))
+        arms = X.ordered_by_key(arms, ["32", "48", "64"])
         out = re.search(r"\w+\.copy_from_slice\(&\w+\[\.\.(\d+)\]\);\s*\w+\s*$", b)
         return (w.group(2), w.group(3), rep.group(1), bs.group(2), bs.group(3), bs.group(4), bs.group(5),
                 X.ctuples([(int(a), int(h)) for a, h in arms]), out.group(1))
